@@ -1,6 +1,7 @@
 import ShkModel.Model.Printer
 import ShkModel.Model.Escape
 import ShkModel.Driver.C09
+import ShkModel.Model.TemplateTable
 import ShkModel.Driver.Util
 /-! Driver for C10.  A configuration is a list of clause tokens (see `vlib/cfggen.py`,
 `clause_tok`): fields separated by `:`, strings hex-encoded, inner lists by `;`, `/`, `.`.
@@ -193,7 +194,26 @@ def escOp (old : Bool) (pre t rest : String) : String :=
     | .readErr _ => s!"{Shk.Drv.C09.hexN esc} err"
   | _, _, _ => "bad-op"
 
+/-- `C10 tpl xLINE`: for every template clause regexp that matches the line (model matcher): `name:ok` when the
+line is the rendering of its own fields, `name:notimage` otherwise; `-` when none matches. -/
+def tplOp (line : String) : String :=
+  match Shk.Drv.C09.unhexN line with
+  | none => "bad-op"
+  | some bs =>
+    match unhex line with
+    | none => "not-utf8"
+    | some str =>
+      let s := str.toList
+      let _ := bs
+      let hits := Shk.Tpl.namedTemplates.filterMap fun e =>
+        match Shk.Tpl.isImage s e.2 with
+        | none => none
+        | some true => some (e.1 ++ ":ok")
+        | some false => some (e.1 ++ ":notimage")
+      if hits.isEmpty then "-" else " ".intercalate hits
+
 def handle : List String → String
+  | ["tpl", line] => tplOp line
   | ["esc", pre, t, rest] => escOp false pre t rest
   | ["escold", pre, t, rest] => escOp true pre t rest
   | "print" :: ts =>
